@@ -1,6 +1,6 @@
-(* C20 relocation, assembled: for every tree outside C20-K1 the build into a
-   non-empty data object is the build into the empty one, relocated; for trees
-   that are also outside C05-K1 / C05-K2 this is exactly [Spec.Reloc.relocated]. *)
+(* C20 relocation, assembled: for every tree the build into a non-empty data
+   object is the build into the empty one, relocated; for trees outside C05-K2
+   this is exactly [Spec.Reloc.relocated]. *)
 From Coq Require Import List Arith Bool NArith Lia.
 From GV Require Import Base.Result Gen.TokenTypes Gen.Defs Gen.Instr Model.Parser Model.BuilderWL Model.Compile
   Spec.WfCode Spec.Reloc Proofs.C05.InlBase Proofs.C05.Known Proofs.C05.Operands Proofs.C05.Jumps Proofs.C05.Bodies
@@ -8,12 +8,10 @@ From GV Require Import Base.Result Gen.TokenTypes Gen.Defs Gen.Instr Model.Parse
 Import ListNotations.
 
 Theorem compile_relocates : forall init lit t,
-  empty_after_end init t = false ->
   compile init lit t = shRes (shR init) (compile empty_init lit t).
 Proof.
-  intros init lit t Hk. rewrite (compile_shift init lit t). f_equal.
+  intros init lit t. rewrite (compile_shift init lit t). f_equal.
   apply compile_last_irrelevant.
-  unfold empty_after_end in Hk. apply andb_false_iff in Hk. destruct Hk as [Hk|Hk]; [left; exact Hk | right; exact Hk].
 Qed.
 
 Lemma instr_eqb_refl : forall io, instr_eqb io io = true.
@@ -50,14 +48,13 @@ Proof.
 Qed.
 
 Theorem compile_relocated : forall nodes init lit t r r0,
-  tree_in nodes t -> tree_good t -> empty_after_end init t = false ->
+  tree_in nodes t -> tree_good t ->
   compile init lit t = Ok r -> compile empty_init lit t = Ok r0 ->
   relocated init (code_of_compile r0) (code_of_compile r) = true.
 Proof.
-  intros nodes init lit t r r0 Htin Hg Hk Hc Hc0.
-  rewrite (compile_relocates init lit t Hk), Hc0 in Hc. cbn [shRes] in Hc. inversion Hc; subst r. clear Hc.
-  assert (Hk0 : empty_after_end empty_init t = false) by (unfold empty_after_end; cbn; apply andb_false_r).
-  destruct (compile_wf empty_init lit nodes t r0 Htin Hg Hk0 Hc0) as [_ [Hjumps _]].
+  intros nodes init lit t r r0 Htin Hg Hc Hc0.
+  rewrite (compile_relocates init lit t), Hc0 in Hc. cbn [shRes] in Hc. inversion Hc; subst r. clear Hc.
+  destruct (compile_wf empty_init lit nodes t r0 Htin Hg Hc0) as [_ [Hjumps _]].
   unfold relocated, shift_code, code_of_compile, shR. cbn [k_instrs k_meta k_jumps k_entry fst snd shS ci cm cj].
   rewrite mapi_shJ_plain.
   - apply code_eqb_refl.
